@@ -99,10 +99,9 @@ def run(ctx):
                 ctx.add_broken("correspondence", f"translator/impl/{sym}", {"params": ps, "f": f, "python": str(z_py), "term": str(z_impl)})
         # equation term vs sympy (a few points only: sympy is slow)
         if i % 4 == 0:
-            expr = e.to_sympy(substitute=True)
             try:
-                z_sym = complex(expr.subs("f", f))
-            except Exception:
+                z_sym = sym_eval(e, f)
+            except (Exception, TimeoutError):
                 continue
             ctx.count("xcheck:eqn-term-vs-sympy")
             if benign(z_sym) and benign(z_eqn) and relerr(z_sym, z_eqn) > REL:
@@ -119,9 +118,32 @@ def run(ctx):
     oracle(ctx, rnd, els)
 
 
+class TimeLimit:
+    """sympy occasionally does not return (limit(), subs() on pathological expressions): bound each call"""
+
+    def __init__(self, seconds):
+        self.seconds = seconds
+
+    def __enter__(self):
+        import signal
+
+        def handler(signum, frame):
+            raise TimeoutError()
+
+        self.old = signal.signal(signal.SIGALRM, handler)
+        signal.alarm(self.seconds)
+
+    def __exit__(self, *a):
+        import signal
+        signal.alarm(0)
+        signal.signal(signal.SIGALRM, self.old)
+        return False
+
+
 def sym_eval(obj, f):
-    expr = obj.to_sympy(substitute=True)
-    return complex(expr.subs("f", f))
+    with TimeLimit(20):
+        expr = obj.to_sympy(substitute=True)
+        return complex(expr.subs("f", f))
 
 
 def oracle(ctx, rnd, els):
@@ -167,13 +189,19 @@ def oracle(ctx, rnd, els):
     limits(ctx, rnd, els, big)
 
 
+def cfl(z):
+    return f"{fl(z.real)};{fl(z.imag)}"
+
+
 def tlm_configs(ctx, rnd, els, big):
-    """All 3^5 open/short/finite configurations of the general transmission line: numeric and symbolic
-    side must agree on which are refused and on the value of the accepted ones."""
-    from pyimpspec import Series, Resistor, Capacitor
-    from pyimpspec import ConstantPhaseElement
+    """All 3^5 open/short/finite configurations of the general transmission line.  (a) correspondence `tlm`:
+    the Lean model (hand-written decision trees + regenerated branch formulas, evaluated by the driver at
+    complex floats on the real sub-circuits' impedances) vs the real numeric and symbolic implementations;
+    (b) oracle: numeric and symbolic side agree on which configurations are refused and on the values."""
+    from pyimpspec import Series, Resistor, ConstantPhaseElement
     Tlm = els["Tlm"]
     keys = ["X_1", "X_2", "Z_A", "Z_B", "Zeta"]
+    names = ["x1", "x2", "za", "zb", "ze"]
 
     def make(kind):
         if kind == "open":
@@ -184,10 +212,12 @@ def tlm_configs(ctx, rnd, els, big):
             if rnd.random() < 0.5 else Series([Resistor(R=circgen.round6(10 ** rnd.uniform(-1, 3)))])
 
     nvalid = 0
+    lines, recs = [], []
     for cfg in itertools.product(["open", "short", "finite"], repeat=5):
         reps = 2 if big else 1
         for _ in range(reps):
-            t = Tlm(**{k: make(c) for k, c in zip(keys, cfg)}, L=circgen.round6(10 ** rnd.uniform(-1, 1)))
+            subs = {k: make(c) for k, c in zip(keys, cfg)}
+            t = Tlm(**subs, L=circgen.round6(10 ** rnd.uniform(-1, 1)))
             f = 10 ** rnd.uniform(-2, 4)
             try:
                 with np.errstate(all="ignore"):
@@ -200,21 +230,53 @@ def tlm_configs(ctx, rnd, els, big):
                 sr = "ok"
             except Exception as x:  # noqa
                 zs, sr = None, type(x).__name__
-            ctx.count(f"oracle:tlm:{zr}")
-            if (zr == "ok") != (sr == "ok"):
-                # division by an exact zero shows up as ZeroDivisionError / zoo on the symbolic side only
-                if zr == "ok" and not benign(z):
-                    continue
-                if sr == "ok" and not benign(zs):
-                    continue
-                ctx.add_failing("tlm-config-refusal-differs", {"config": dict(zip(keys, cfg)), "cdc": t.to_string(17), "f": f}, observed=f"numeric {zr}", expected=f"symbolic {sr}",
+            binds = []
+            for nm, k in zip(names, keys):
+                c = subs[k]
+                v = complex(0, 0) if c is None else complex(c._impedance(np.array([f]))[0])
+                binds.append(f"{nm}={cfl(v)}")
+            binds.append(f"L={cfl(complex(t.get_value('L'), 0))}")
+            lines.append("tlm impl " + " ".join(cfg) + " " + " ".join(binds))
+            lines.append("tlm sym " + " ".join(cfg) + " " + " ".join(binds))
+            if sr == "TimeoutError":
+                ctx.count("tlm:sympy-timeout(skipped)")
+                lines = lines[:-2]
+                continue
+            recs.append((cfg, t, f, z, zr, zs, sr))
+    out = common.run_driver(lines)
+    nd = 0
+    for i, (cfg, t, f, z, zr, zs, sr) in enumerate(recs):
+        ctx.count(f"tlm:{zr}")
+        ctx.note_case(("tlm", cfg, f))
+        for which, rep, real_v, real_r in (("impl", out[2 * i], z, zr), ("sym", out[2 * i + 1], zs, sr)):
+            if rep.startswith("err"):
+                ok = real_r == rep[4:]
+                if not ok and real_r == "ok" and not benign(real_v):
+                    ok = True
+                if not ok and which == "sym" and real_r in ("ZeroDivisionError", "TypeError"):
+                    ok = True  # sympy refuses to divide by an exact zero (zoo); the float model returns inf/nan
+            else:
+                a = rep.split(" ")
+                zm = from_bits(a[1], a[2])
+                ok = real_r == "ok" and ((not benign(real_v)) or (not benign(zm)) or relerr(real_v, zm) <= 1e-6)
+                if real_r != "ok" and not benign(zm):
+                    ok = True
+            if not ok:
+                nd += 1
+                if nd <= 3:
+                    ctx.add_broken("correspondence", f"tlm/{which}", {"config": dict(zip(keys, cfg)), "cdc": t.to_string(17), "f": f, "implementation": f"{real_r} {real_v}", "model": rep})
+        if (zr == "ok") != (sr == "ok"):
+            if (zr == "ok" and not benign(z)) or (sr == "ok" and not benign(zs)):
+                continue
+            ctx.add_failing("tlm-config-refusal-differs", {"config": dict(zip(keys, cfg)), "cdc": t.to_string(17), "f": f}, observed=f"numeric {zr}", expected=f"symbolic {sr}",
+                            clause="for every configuration of the general transmission-line element's sub-circuits")
+        elif zr == "ok":
+            nvalid += 1
+            if benign(z) and benign(zs) and relerr(z, zs) > 1e-6:
+                ctx.add_failing("tlm-vs-symbolic", {"config": dict(zip(keys, cfg)), "cdc": t.to_string(17), "f": f}, observed=str(z), expected=str(zs),
                                 clause="for every configuration of the general transmission-line element's sub-circuits")
-            elif zr == "ok":
-                nvalid += 1
-                if benign(z) and benign(zs) and relerr(z, zs) > 1e-6:
-                    ctx.add_failing("tlm-vs-symbolic", {"config": dict(zip(keys, cfg)), "cdc": t.to_string(17), "f": f}, observed=str(z), expected=str(zs),
-                                    clause="for every configuration of the general transmission-line element's sub-circuits")
-    ctx.counters["oracle:tlm:valid-evaluations"] = nvalid
+    ctx.counters["tlm:valid-evaluations"] = nvalid
+    ctx.counters["tlm:diffs"] = nd
 
 
 def limits(ctx, rnd, els, big):
@@ -235,8 +297,11 @@ def limits(ctx, rnd, els, big):
         e = cls(**ps)
         for f0, probe in ((0.0, sympy.Rational(1, 10 ** 200)), (math.inf, sympy.Integer(10) ** 200)):
             try:
-                with np.errstate(all="ignore"):
+                with np.errstate(all="ignore"), TimeLimit(20):
                     zl = complex(e.get_impedances(np.array([f0]))[0])
+            except TimeoutError:
+                ctx.count("oracle:limit:sympy-timeout")
+                continue
             except ImpedanceError:
                 ctx.count("oracle:limit:not-finite")
                 continue
@@ -244,8 +309,9 @@ def limits(ctx, rnd, els, big):
                 ctx.count("oracle:limit:error:" + type(x).__name__)
                 continue
             try:
-                near = complex(sympy.N(e.to_sympy(substitute=True).subs("f", probe), 30))
-            except Exception:
+                with TimeLimit(20):
+                    near = complex(sympy.N(e.to_sympy(substitute=True).subs("f", probe), 30))
+            except (Exception, TimeoutError):
                 continue
             ctx.count("oracle:limit:finite")
             if np.isfinite(near) and abs(near - zl) > 1e-3 * max(abs(zl), abs(near), 1e-30):
